@@ -1165,13 +1165,10 @@ func funRound(v *decimal.Big) (*decimal.Big, error) {
 }
 
 func funRoundBank(v *decimal.Big) (*decimal.Big, error) {
-	// 将 v 的小数部分提取出来
-	mv := newDecimalBig().Rem(v, decimal.New(1, 0))
-	if mv.Cmp(decimal.New(5, -1)) <= 0 {
-		return funCeil(v)
-	} else {
-		return funFloor(v)
-	}
+	// banker's rounding: nearest integer, ties to even
+	result := newDecimalBig().Copy(v)
+	result.Context.RoundingMode = decimal.ToNearestEven
+	return result.RoundToInt(), nil
 }
 
 func funRoundCash(v, places *decimal.Big) (*decimal.Big, error) {
